@@ -229,6 +229,33 @@ def text_args(i: int, tail: bytes, kind: int) -> bool:
     return r
 
 
+def parse_sequence(i: int, j: int) -> bool:
+    """
+    pre: 0 <= i < 128 and 0 <= j < 128
+    post: _
+    """
+    # parsing one pickle must not influence how the next one re-serialises (caches keyed by values that compare
+    # equal, interned opcode objects, ...): parse sample i, then sample j in the same interpreter; j must round-trip
+    if i >= len(TEXT) or j >= len(TEXT):
+        return True
+    i, j = pin(i, 0, len(TEXT) - 1), pin(j, 0, len(TEXT) - 1)
+    with native():
+        (n1, a1), (n2, a2) = TEXT[i], TEXT[j]
+        h1 = OPS[n1].code.encode("latin-1") + a1 + STOP
+        h2 = OPS[n2].code.encode("latin-1") + a2 + STOP
+        try:
+            Pickled.load(h1).dumps()
+        except Exception:
+            pass
+        try:
+            p = Pickled.load(h2 + b"tail")
+        except (NotImplementedError, F.PickleDecodeError):
+            return True
+        rt.reach()
+        both = StackedPickle.load(h2 + h2)
+        return p.dumps() == h2 and [q.dumps() for q in both] == [h2, h2]
+
+
 def stack_partition(k: int, xs: List[int], n: int, payload: bytes, kind: int) -> bool:
     """
     pre: 1 <= k <= 3 and len(xs) == 3 and all(0 <= x < 256 for x in xs)
@@ -333,6 +360,10 @@ def _stock_end(data):
     return f.tell()
 
 
+def _ti(name, k):
+    return [t for t, (n, a) in enumerate(TEXT) if n == name][k]
+
+
 def lemmas(tier):
     from vf.symlib import validate_pure_struct
     validate_pure_struct()
@@ -367,6 +398,10 @@ def lemmas(tier):
               dry=[{"i": 0, "tail": b"", "kind": 0}],
               doc={"S": ["tail"], "F": ["%d (opcode, text argument) samples" % len(TEXT), "delivery kind"],
                    "bound": "text arguments are listed samples"}),
+        Lemma("parse_sequence", parse_sequence, timeout=240 if q else 900,
+              dry=[{"i": _ti("BINFLOAT", 0), "j": _ti("BINFLOAT", 4)}, {"i": _ti("BINFLOAT", 4), "j": _ti("BINFLOAT", 0)}, {"i": _ti("INT", 1), "j": _ti("INT", 2)}],
+              doc={"F": ["ordered pairs of the %d (opcode, text argument) samples parsed one after the other in one interpreter (0.0 / -0.0, 1 / 01 / True ...)" % len(TEXT)],
+                   "bound": "pairs of single-opcode pickles"}),
         Lemma("stack_partition", stack_partition, timeout=240 if q else 900,
               dry=[{"k": 3, "xs": [1, 2, 3], "n": 1, "payload": b"p", "kind": 0}],
               doc={"S": ["every pickle's payload byte, the middle pickle's length field/payload/memo index"], "F": ["k=1..3", "delivery kind"],
